@@ -5,6 +5,8 @@
 #include <inttypes.h>
 #include "tfhe.h"
 #include "tfhe_io.h"
+#include "polynomials_arithmetic.h"
+#include "lagrangehalfc_arithmetic.h"
 
 static void dump_lweparams(const char *tag, const LweParams *p) { printf("%s n=%d amin=%.17g amax=%.17g\n", tag, p->n, p->alpha_min, p->alpha_max); }
 int main(void) {
@@ -28,6 +30,30 @@ int main(void) {
     for (int lam = 80; lam <= 128; lam += 48) { TFheGateBootstrappingParameterSet *ps = new_default_gate_bootstrapping_parameters(lam);
         printf("ParameterSet(%d) t=%d basebit=%d n=%d N=%d l=%d Bgbit=%d ks_sd=%.17g bk_sd=%.17g\n", lam, ps->ks_t, ps->ks_basebit, ps->in_out_params->n, ps->tgsw_params->tlwe_params->N, ps->tgsw_params->l, ps->tgsw_params->Bgbit, ps->in_out_params->alpha_min, ps->tgsw_params->tlwe_params->alpha_min);
         delete_gate_bootstrapping_parameters(ps); }
+    /* FFT-domain objects used from C: an array with count > 1 (every element is the destination of an operation) and an object in caller-provided
+       storage between guard words.  Values differ by a unit between back-ends, so verdicts (within 2 units) are printed, not raw coefficients. */
+    { const int N = 1024; int i, e; IntPolynomial *ia = new_IntPolynomial(N); TorusPolynomial *tb = new_TorusPolynomial(N), *tr = new_TorusPolynomial(N);
+      LagrangeHalfCPolynomial *arr = new_LagrangeHalfCPolynomial_array(3, N);
+      for (i = 0; i < N; i++) { ia->coefs[i] = (i % 7) - 3; tb->coefsT[i] = (Torus32)(i * 2654435761u); }
+      for (e = 0; e < 3; e++) { int okc = 1, oka = 1, okm = 1; LagrangeHalfCPolynomial *x = arr + e, *y = arr + (e + 1) % 3, *z = arr + (e + 2) % 3;
+          LagrangeHalfCPolynomialSetTorusConstant(x, (Torus32)0x20000000); TorusPolynomial_fft(tr, x);
+          for (i = 0; i < N; i++) { int64_t d = (int64_t)tr->coefsT[i] - (i == 0 ? 0x20000000 : 0); if (d > 2 || d < -2) okc = 0; }
+          TorusPolynomial_ifft(y, tb); LagrangeHalfCPolynomialAddTo(x, y); TorusPolynomial_fft(tr, x);
+          for (i = 0; i < N; i++) { int32_t w = (int32_t)((uint32_t)tb->coefsT[i] + (i == 0 ? 0x20000000u : 0u)); int64_t d = (int64_t)(int32_t)((uint32_t)tr->coefsT[i] - (uint32_t)w); if (d > 3 || d < -3) oka = 0; }
+          IntPolynomial_ifft(z, ia); LagrangeHalfCPolynomialMul(x, z, y); TorusPolynomial_fft(tr, x);
+          { TorusPolynomial *ex = new_TorusPolynomial(N); torusPolynomialMultKaratsuba(ex, ia, tb); for (i = 0; i < N; i++) { int64_t d = (int64_t)(int32_t)((uint32_t)tr->coefsT[i] - (uint32_t)ex->coefsT[i]); if (d > 2 || d < -2) okm = 0; } delete_TorusPolynomial(ex); }
+          { int oki = 1; TorusPolynomial *ex = new_TorusPolynomial(N); torusPolynomialMultKaratsuba(ex, ia, tb); TorusPolynomial_ifft(y, tb); IntPolynomial_ifft(z, ia); LagrangeHalfCPolynomialMul(y, z, y); TorusPolynomial_fft(tr, y);
+            for (i = 0; i < N; i++) { int64_t d = (int64_t)(int32_t)((uint32_t)tr->coefsT[i] - (uint32_t)ex->coefsT[i]); if (d > 2 || d < -2) oki = 0; }
+            TorusPolynomial_ifft(y, tb); LagrangeHalfCPolynomialAddMul(y, z, y); TorusPolynomial_fft(tr, y);
+            for (i = 0; i < N; i++) { int64_t d = (int64_t)(int32_t)((uint32_t)tr->coefsT[i] - (uint32_t)ex->coefsT[i] - (uint32_t)tb->coefsT[i]); if (d > 3 || d < -3) oki = 0; } delete_TorusPolynomial(ex);
+            printf("LagrangeArray elem=%d const_ok=%d addto_ok=%d mul_ok=%d inplace_ok=%d\n", e, okc, oka, okm, oki); } }
+      delete_LagrangeHalfCPolynomial_array(3, arr);
+      { struct { uint64_t g0[2]; LagrangeHalfCPolynomial obj; uint64_t g1[2]; } box; int ok = 1; box.g0[0] = box.g0[1] = box.g1[0] = box.g1[1] = 0x5AA5C3C3A55A3C3CULL;
+        init_LagrangeHalfCPolynomial(&box.obj, N); TorusPolynomial_ifft(&box.obj, tb); TorusPolynomial_fft(tr, &box.obj);
+        for (i = 0; i < N; i++) { int64_t d = (int64_t)(int32_t)((uint32_t)tr->coefsT[i] - (uint32_t)tb->coefsT[i]); if (d > 1 || d < -1) ok = 0; }
+        destroy_LagrangeHalfCPolynomial(&box.obj);
+        printf("LagrangeEmbedded sizeof=%d roundtrip_ok=%d guards_intact=%d\n", (int)sizeof(LagrangeHalfCPolynomial), ok, box.g0[0] == 0x5AA5C3C3A55A3C3CULL && box.g0[1] == 0x5AA5C3C3A55A3C3CULL && box.g1[0] == 0x5AA5C3C3A55A3C3CULL && box.g1[1] == 0x5AA5C3C3A55A3C3CULL); }
+      delete_IntPolynomial(ia); delete_TorusPolynomial(tb); delete_TorusPolynomial(tr); }
     IntPolynomial *ip = new_IntPolynomial(8); TorusPolynomial *tq = new_TorusPolynomial(8); printf("Polynomials N=%d N=%d\n", ip->N, tq->N);
     delete_IntPolynomial(ip); delete_TorusPolynomial(tq); delete_LweKeySwitchKey(ks); delete_TGswSample(gs); delete_TLweSample(ts); delete_TGswKey(gk); delete_TGswParams(gp); delete_TLweParams(tp); delete_LweSample(ls); delete_LweKey(lk); delete_LweParams(lp);
     return 0;
